@@ -774,19 +774,77 @@ fn fp_cv(m: &CountVectorizer, p: &P, f: &mut Fingerprint) {
     }
 }
 
-/// Documented behaviour of a vectoriser with a tokenizer *function*: the function
-/// pointer is not serialised; after restore `transform` returns `TokenizerNotSet`
-/// until `force_tokenizer_function_redefinition` is called, after which the output
-/// must be identical.  Original (transform works) and restored (TokenizerNotSet)
-/// are both legitimate before the redefinition, so both map to the same token.
-fn fp_cv_fn_tokenizer(m: &CountVectorizer, p: &P, f: &mut Fingerprint) {
-    match m.transform(&train_docs(p)) {
-        Ok(_) | Err(PreprocessingError::TokenizerNotSet) => f.text("before_redefinition", "ok|TokenizerNotSet"),
-        Err(e) => f.err("before_redefinition", &e),
+/// Documents written to real files (the file entry points read by path through `std::fs`;
+/// there is no seam, so a private directory under the system temp dir is used and removed).
+struct DocFiles {
+    dir: std::path::PathBuf,
+    paths: Vec<std::path::PathBuf>,
+}
+impl DocFiles {
+    fn new(docs: &Array1<String>) -> DocFiles {
+        static CTR: std::sync::atomic::AtomicU64 = std::sync::atomic::AtomicU64::new(0);
+        let n = CTR.fetch_add(1, std::sync::atomic::Ordering::SeqCst);
+        let dir = std::env::temp_dir().join(format!("linfa-sim-docs-{}-{}", std::process::id(), n));
+        std::fs::create_dir_all(&dir).expect("temp dir for document files");
+        let mut paths = Vec::new();
+        for (i, d) in docs.iter().enumerate() {
+            let path = dir.join(format!("doc{i:04}.txt"));
+            std::fs::write(&path, d.as_bytes()).expect("write document file");
+            paths.push(path);
+        }
+        DocFiles { dir, paths }
     }
+}
+impl Drop for DocFiles {
+    fn drop(&mut self) {
+        let _ = std::fs::remove_dir_all(&self.dir);
+    }
+}
+
+fn fp_cv_files(m: &CountVectorizer, p: &P, f: &mut Fingerprint) {
+    let docs = unseen_docs(p);
+    let files = DocFiles::new(&docs);
+    match m.transform_files(&files.paths, encoding::all::UTF_8, encoding::DecoderTrap::Strict) {
+        Ok(c) => fp_sparse(m.vocabulary(), &c, "files", f),
+        Err(e) => f.err("transform_files", &e),
+    }
+}
+
+/// Documented behaviour of a vectoriser with a tokenizer *function*: the function
+/// pointer is not serialised; after restore every use returns `TokenizerNotSet` until
+/// `force_tokenizer_function_redefinition` is called, after which the output must be
+/// identical.  So *before* the redefinition a use is legitimate iff it either fails with
+/// `TokenizerNotSet` or gives exactly what it gives after the redefinition (the original
+/// value, which still has its function).  That contract is encoded here: a
+/// `TokenizerNotSet` outcome is replaced by the post-redefinition result, anything else
+/// (e.g. `Ok` with documents tokenised some other way) is recorded as it is.
+fn fp_cv_fn_tokenizer(m: &CountVectorizer, p: &P, f: &mut Fingerprint) {
     let mut c = m.clone();
     c.force_tokenizer_function_redefinition(blank_tokenizer);
+    let mut before = Fingerprint::new();
+    match m.transform(&train_docs(p)) {
+        Ok(x) => fp_sparse(m.vocabulary(), &x, "train", &mut before),
+        Err(PreprocessingError::TokenizerNotSet) => match c.transform(&train_docs(p)) {
+            Ok(x) => fp_sparse(c.vocabulary(), &x, "train", &mut before),
+            Err(e) => before.err("transform_train", &e),
+        },
+        Err(e) => before.err("transform_train", &e),
+    }
+    {
+        let docs = unseen_docs(p);
+        let files = DocFiles::new(&docs);
+        match m.transform_files(&files.paths, encoding::all::UTF_8, encoding::DecoderTrap::Strict) {
+            Ok(x) => fp_sparse(m.vocabulary(), &x, "files", &mut before),
+            Err(PreprocessingError::TokenizerNotSet) => match c.transform_files(&files.paths, encoding::all::UTF_8, encoding::DecoderTrap::Strict) {
+                Ok(x) => fp_sparse(c.vocabulary(), &x, "files", &mut before),
+                Err(e) => before.err("transform_files", &e),
+            },
+            Err(e) => before.err("transform_files", &e),
+        }
+    }
+    f.extend("before_redefinition/", before);
     fp_cv(&c, p, f);
+    fp_cv_files(&c, p, f);
 }
 
 fn fp_tfidf(m: &FittedTfIdfVectorizer, p: &P, f: &mut Fingerprint) {
@@ -806,14 +864,42 @@ fn fp_tfidf(m: &FittedTfIdfVectorizer, p: &P, f: &mut Fingerprint) {
         }
     }
 }
-fn fp_tfidf_fn_tokenizer(m: &FittedTfIdfVectorizer, p: &P, f: &mut Fingerprint) {
-    match m.transform(&train_docs(p)) {
-        Ok(_) | Err(PreprocessingError::TokenizerNotSet) => f.text("before_redefinition", "ok|TokenizerNotSet"),
-        Err(e) => f.err("before_redefinition", &e),
+fn fp_tfidf_files(m: &FittedTfIdfVectorizer, p: &P, f: &mut Fingerprint) {
+    let docs = unseen_docs(p);
+    let files = DocFiles::new(&docs);
+    match m.transform_files(&files.paths, encoding::all::UTF_8, encoding::DecoderTrap::Strict) {
+        Ok(c) => fp_sparse(m.vocabulary(), &c, "files", f),
+        Err(e) => f.err("transform_files", &e),
     }
+}
+/// same contract as [`fp_cv_fn_tokenizer`]
+fn fp_tfidf_fn_tokenizer(m: &FittedTfIdfVectorizer, p: &P, f: &mut Fingerprint) {
     let mut c = m.clone();
     c.force_tokenizer_redefinition(blank_tokenizer);
+    let mut before = Fingerprint::new();
+    match m.transform(&train_docs(p)) {
+        Ok(x) => fp_sparse(m.vocabulary(), &x, "train", &mut before),
+        Err(PreprocessingError::TokenizerNotSet) => match c.transform(&train_docs(p)) {
+            Ok(x) => fp_sparse(c.vocabulary(), &x, "train", &mut before),
+            Err(e) => before.err("transform_train", &e),
+        },
+        Err(e) => before.err("transform_train", &e),
+    }
+    {
+        let docs = unseen_docs(p);
+        let files = DocFiles::new(&docs);
+        match m.transform_files(&files.paths, encoding::all::UTF_8, encoding::DecoderTrap::Strict) {
+            Ok(x) => fp_sparse(m.vocabulary(), &x, "files", &mut before),
+            Err(PreprocessingError::TokenizerNotSet) => match c.transform_files(&files.paths, encoding::all::UTF_8, encoding::DecoderTrap::Strict) {
+                Ok(x) => fp_sparse(c.vocabulary(), &x, "files", &mut before),
+                Err(e) => before.err("transform_files", &e),
+            },
+            Err(e) => before.err("transform_files", &e),
+        }
+    }
+    f.extend("before_redefinition/", before);
     fp_tfidf(&c, p, f);
+    fp_tfidf_files(&c, p, f);
 }
 
 const STOP: [&str; 5] = ["the", "and", "of", "alpha", "two two"];
@@ -959,13 +1045,36 @@ fn fp_cv_params_fn_redefined(v: &CountVectorizerParams, p: &P, f: &mut Fingerpri
 /// no guard.  Only the vocabulary is observed (after giving the fitted vectoriser its
 /// tokenizer back, which is the documented remedy for the fitted type).
 fn fp_cv_params_fn_unguarded(v: &CountVectorizerParams, p: &P, f: &mut Fingerprint) {
-    match v.fit(&train_docs(p)) {
+    // contract as in `fp_cv_fn_tokenizer`: before the tokenizer is given back, fitting either
+    // reports TokenizerNotSet or gives what it gives afterwards
+    let fitted = match v.fit(&train_docs(p)) {
+        Err(PreprocessingError::TokenizerNotSet) => v.clone().tokenizer(Tokenizer::Function(blank_tokenizer)).fit(&train_docs(p)),
+        other => other,
+    };
+    match fitted {
         Ok(m) => {
             let mut c = m.clone();
             c.force_tokenizer_function_redefinition(blank_tokenizer);
             fp_cv(&c, p, f)
         }
         Err(e) => f.err("fit", &e),
+    }
+    // the file entry point follows the same rule
+    let docs = train_docs(p);
+    let files = DocFiles::new(&docs);
+    let fitted = match v.fit_files(&files.paths, encoding::all::UTF_8, encoding::DecoderTrap::Strict) {
+        Err(PreprocessingError::TokenizerNotSet) => {
+            v.clone().tokenizer(Tokenizer::Function(blank_tokenizer)).fit_files(&files.paths, encoding::all::UTF_8, encoding::DecoderTrap::Strict)
+        }
+        other => other,
+    };
+    match fitted {
+        Ok(m) => {
+            let mut g = Fingerprint::new();
+            fp_vocabulary(m.vocabulary(), m.nentries(), &mut g);
+            f.extend("fit_files/", g);
+        }
+        Err(e) => f.err("fit_files", &e),
     }
 }
 
@@ -992,7 +1101,13 @@ fn fp_cv_valid(v: &CountVectorizerValidParams, p: &P, f: &mut Fingerprint) {
 /// repaired, and by then `fit` has already tokenised with the regex
 fn fp_cv_valid_fn_unguarded(v: &CountVectorizerValidParams, p: &P, f: &mut Fingerprint) {
     fp_cv_valid_accessors(v, false, f);
-    match v.fit(&train_docs(p)) {
+    // a checked parameter set has no setter for the function: the legitimate outcomes are
+    // TokenizerNotSet or what a freshly built set (which has its function) learns
+    let fitted = match v.fit(&train_docs(p)) {
+        Err(PreprocessingError::TokenizerNotSet) => build_cv_valid::<10>(p).fit(&train_docs(p)),
+        other => other,
+    };
+    match fitted {
         Ok(m) => {
             let mut c = m.clone();
             c.force_tokenizer_function_redefinition(blank_tokenizer);
